@@ -160,7 +160,7 @@ def main(root, repo_src, plan_path):
     async def run_all():
         for call in plan["calls"]:
             try:
-                r = await asyncio.wait_for(one(call), 20)
+                r = await asyncio.wait_for(one(call), 90)
             except asyncio.TimeoutError:
                 r = {"route": call["method"], "ran": [], "seen_reqs": [], "sent_resps": [], "meta": "", "deadline": -1, "hit": [], "res": "hang",
                      "status": "", "got": [], "sent": [], "exc": ""}
